@@ -9,8 +9,8 @@
 #define _GNU_SOURCE
 #include "vh.h"
 
-enum { W_OBJ_BEGIN = 0, W_OBJ_END, W_ARR_BEGIN, W_ARR_END, W_BOOL, W_INT, W_DOUBLE, W_STRING, W_STRING_LEN, W_NAME, W_NAME_LEN, W_BYTES, W_RAW, W_RAW_NULL, W_NOPS };
-static const char *WNAME[] = { "object_begin", "object_end", "array_begin", "array_end", "boolean", "integer", "double", "string", "string_with_len", "name", "name_with_len", "bytes", "raw", "raw(NULL)" };
+enum { W_OBJ_BEGIN = 0, W_OBJ_END, W_ARR_BEGIN, W_ARR_END, W_BOOL, W_INT, W_DOUBLE, W_STRING, W_STRING_LEN, W_NAME, W_NAME_LEN, W_BYTES, W_RAW, W_RAW_NULL, W_PTW_SCALAR, W_PTW_CONT, W_NOPS };
+static const char *WNAME[] = { "object_begin", "object_end", "array_begin", "array_end", "boolean", "integer", "double", "string", "string_with_len", "name", "name_with_len", "bytes", "raw", "raw(NULL)", "parser_to_writer(on a scalar)", "parser_to_writer(on a container)" };
 
 typedef struct {
     int op; bool b; int64_t i; uint64_t dbits;
@@ -19,6 +19,16 @@ typedef struct {
     size_t enc_off;                   /* offset of this call's bytes in the full encoding */
 } wcall;
 
+/* {"a":{"c":2},"b":7} : a parser positioned on the container "a" or on the scalar "b" feeds binson_parser_to_writer */
+static const uint8_t PTW_DOC[] = { 0x40, 0x14, 0x01, 'a', 0x40, 0x14, 0x01, 'c', 0x10, 0x02, 0x41, 0x14, 0x01, 'b', 0x10, 0x07, 0x41 };
+static bool ptw_exec(binson_writer *w, bool container)
+{
+    binson_state st[3]; binson_parser p;
+    memset(&p, 0, sizeof p); memset(st, 0, sizeof st);
+    p.state = st; p.max_depth = 3;
+    if (!(binson_parser_init_object(&p, PTW_DOC, sizeof PTW_DOC) && binson_parser_go_into_object(&p) && binson_parser_field(&p, container ? "a" : "b"))) { fprintf(stderr, "HARNESS: ptw setup\n"); exit(2); }
+    return binson_parser_to_writer(&p, w);
+}
 static void call_free(wcall *c) { if (c->data) vg_free(c->data, (c->op == W_STRING || c->op == W_NAME) ? c->len + 1 : c->len); c->data = NULL; }
 
 static void call_model(wcall *c, vbuf *full)
@@ -43,6 +53,8 @@ static void call_model(wcall *c, vbuf *full)
     }
     case W_RAW: vb_put(full, c->data, c->len); break;
     case W_RAW_NULL: c->npieces = 0; return;
+    case W_PTW_SCALAR: c->npieces = 0; return;                       /* returns false and changes nothing */
+    case W_PTW_CONT: vb_put(full, PTW_DOC + 4, 7); break;            /* appends exactly the container's bytes */
     }
     c->piece[0] = full->n - before;
 }
@@ -65,6 +77,8 @@ static bool call_exec(binson_writer *w, const wcall *c)
     case W_BYTES: return binson_write_bytes(w, c->data, c->len);
     case W_RAW: return binson_write_raw(w, c->data, c->len);
     case W_RAW_NULL: return binson_write_raw(w, NULL, c->len);
+    case W_PTW_SCALAR: return ptw_exec(w, false);
+    case W_PTW_CONT: return ptw_exec(w, true);
     }
     return false;
 }
@@ -77,7 +91,7 @@ static void describe_calls(const wcall *calls, int n, vbuf *o)
         if (c->op == W_INT) vb_printf(o, "(%lld)", (long long)c->i);
         else if (c->op == W_DOUBLE) vb_printf(o, "(bits %016llx)", (unsigned long long)c->dbits);
         else if (c->op == W_BOOL) vb_printf(o, "(%d)", c->b);
-        else if (c->op >= W_STRING) { vb_printf(o, "(%zu bytes:", c->len); if (c->data) vb_hex(o, c->data, c->len, 8); vb_printf(o, ")"); }
+        else if (c->op >= W_STRING && c->op <= W_RAW_NULL) { vb_printf(o, "(%zu bytes:", c->len); if (c->data) vb_hex(o, c->data, c->len, 8); vb_printf(o, ")"); }
         vb_u8(o, ' ');
     }
 }
@@ -85,13 +99,13 @@ static void describe_calls(const wcall *calls, int n, vbuf *o)
 static void random_call(vrng *r, wcall *c, bool allow_null, bool allow_big)
 {
     memset(c, 0, sizeof *c);
-    static const uint8_t w[W_NOPS] = { 8, 8, 6, 6, 5, 14, 5, 6, 8, 5, 6, 10, 6, 0 };
+    static const uint8_t w[W_NOPS] = { 8, 8, 6, 6, 5, 14, 5, 6, 8, 5, 6, 10, 6, 0, 3, 4 };
     uint32_t sum = 0; for (int i = 0; i < W_NOPS; i++) sum += w[i];
     uint32_t x = vrn(r, sum); int op = 0; while (x >= w[op]) { x -= w[op]; op++; }
     if (allow_null && vrn(r, 25) == 0) op = W_RAW_NULL;
     c->op = op;
     c->b = vrn(r, 2); c->i = vt_rand_int(r); c->dbits = vt_rand_dbits(r);
-    if (op >= W_STRING) {
+    if (op >= W_STRING && op <= W_RAW_NULL) {
         vgen g; vg_default(&g, K_OBJ);
         g.big_permille = 80; g.huge_permille = allow_big ? 6 : 0;
         size_t len = vt_rand_len(r, &g);
@@ -133,7 +147,8 @@ static bool run_list(wcall *calls, int n, const vbuf *full, size_t cap, int form
         }
         bool ret = call_exec(w, c);
         size_t cnt = binson_writer_get_counter(w);
-        if (ret != !failed) { snprintf(sig, sizeof sig, "%s:ret:%s:got-%d", sigp, WNAME[c->op], ret); snprintf(what, sizeof what, "call %d (%s) returned %s, the piece model expects %s", i, WNAME[c->op], ret ? "true" : "false", failed ? "false" : "true"); ok = false; }
+        bool expect_ret = !failed && c->op != W_PTW_SCALAR;
+        if (ret != expect_ret) { snprintf(sig, sizeof sig, "%s:ret:%s:got-%d", sigp, WNAME[c->op], ret); snprintf(what, sizeof what, "call %d (%s) returned %s, the piece model expects %s", i, WNAME[c->op], ret ? "true" : "false", expect_ret ? "true" : "false"); ok = false; }
         else if (cnt != counter) { snprintf(sig, sizeof sig, "%s:counter:%s", sigp, WNAME[c->op]); snprintf(what, sizeof what, "after call %d (%s) the counter is %zu, the exact encoded size so far is %zu", i, WNAME[c->op], cnt, counter); ok = false; }
         else if (!failed && w->error_flags != BINSON_ERROR_NONE) { snprintf(sig, sizeof sig, "%s:spurious-error:%s", sigp, verr_name((int)w->error_flags)); snprintf(what, sizeof what, "error_flags=%s although everything fitted", verr_name((int)w->error_flags)); ok = false; }
         else if (failed && w->error_flags == BINSON_ERROR_NONE) { snprintf(sig, sizeof sig, "%s:error-cleared", sigp); snprintf(what, sizeof what, "after the failing call %d the error indicator is NONE", i); ok = false; }
